@@ -219,7 +219,12 @@ impl BuiltinName for DefaultFunction {
 
 pub fn builtin_from_name(name: &str) -> Option<DefaultFunction> {
     use strum::IntoEnumIterator;
-    DefaultFunction::iter().find(|f| f.aiken_name_compat() == name)
+    // tolerant of the specification's spelling (`bls12_381_G1_add` vs `bls12_381_G1_Add`)
+    let norm = |s: &str| s.chars().filter(|c| *c != '_').flat_map(|c| c.to_lowercase()).collect::<String>();
+    let want = norm(name);
+    DefaultFunction::iter()
+        .find(|f| f.aiken_name_compat() == name)
+        .or_else(|| DefaultFunction::iter().find(|f| norm(&f.aiken_name_compat()) == want))
 }
 
 // ---------------------------------------------------------------- input
